@@ -36,6 +36,16 @@ _TYPE_BASES = {
     "GeometricCellQuantity": ("ufl.geometry.GeometricCellQuantity", "geo"),
     "GeometricFacetQuantity": ("ufl.geometry.GeometricFacetQuantity", "geo"),
     "ConstantValue": ("ufl.constantvalue.ConstantValue", "term"),
+    # late types deriving from *concrete* geometric quantities: they fall back to the
+    # handler of their parent, which in UFL's own algorithms is a real lowering rule
+    "Jacobian": ("ufl.geometry.Jacobian", "geo"),
+    "JacobianInverse": ("ufl.geometry.JacobianInverse", "geo"),
+    "JacobianDeterminant": ("ufl.geometry.JacobianDeterminant", "geo"),
+    "FacetNormal": ("ufl.geometry.FacetNormal", "geo"),
+    "CellVolume": ("ufl.geometry.CellVolume", "geo"),
+    "FacetArea": ("ufl.geometry.FacetArea", "geo"),
+    "SpatialCoordinate": ("ufl.geometry.SpatialCoordinate", "geo"),
+    "Circumradius": ("ufl.geometry.Circumradius", "geo"),
 }
 
 
@@ -322,6 +332,73 @@ _REAL_ALGS = {
     "formatter_tree": lambda e: ops.resolve("ufl.algorithms.formatting.tree_format")(e),
     "apply_coefficient_split_none": lambda e: e,
 }
+
+
+def _real_instances(node):
+    """name -> (factory, how) for long-lived instances of UFL's own algorithm classes.
+    how: 'map' (MultiFunction through map_expr_dag), 'visit' (Transformer), 'call'
+    (DAGTraverser)."""
+    R = ops.resolve
+    geo = "ufl.algorithms.apply_geometry_lowering.GeometryLoweringApplier"
+    return {
+        "GeometryLoweringApplier": (lambda: R(geo)(), "map"),
+        "GeometryLoweringApplier-preserve": (
+            lambda: R(geo)({R("ufl.classes.Jacobian"), R("ufl.classes.CellVolume")}),
+            "map",
+        ),
+        "IndexRelabeller": (lambda: R("ufl.algorithms.renumbering.IndexRelabeller")(), "map"),
+        "ComplexNodeRemoval": (lambda: R("ufl.algorithms.remove_complex_nodes.ComplexNodeRemoval")(), "map"),
+        "LowerCompoundAlgebra": (lambda: R("ufl.algorithms.apply_algebra_lowering.LowerCompoundAlgebra")(), "map"),
+        "ChangeToReferenceGrad": (lambda: R("ufl.algorithms.change_to_reference.ChangeToReferenceGrad")(), "map"),
+        "TerminalStripper": (lambda: R("ufl.algorithms.strip_terminal_data.TerminalStripper")(), "map"),
+        "Replacer": (lambda: R("ufl.algorithms.replace.Replacer")({node.get(5): node.get(6)}), "map"),
+        "CheckComparisons": (lambda: R("ufl.algorithms.comparison_checker.CheckComparisons")(), "map"),
+        "FunctionPullbackApplier": (lambda: R("ufl.algorithms.apply_function_pullbacks.FunctionPullbackApplier")(), "map"),
+        "SumDegreeEstimator": (lambda: R("ufl.algorithms.estimate_degrees.SumDegreeEstimator")(1, {}), "map"),
+        "RestrictionChecker": (lambda: R("ufl.algorithms.check_restrictions.RestrictionChecker")(False), "map"),
+        "RestrictionPropagator": (lambda: R("ufl.algorithms.apply_restrictions.RestrictionPropagator")(), "map"),
+        "ArityChecker": (lambda: R("ufl.algorithms.check_arities.ArityChecker")(()), "map"),
+        "ReuseTransformer": (lambda: R("ufl.algorithms.transformer.ReuseTransformer")(), "visit"),
+        "CopyTransformer": (lambda: R("ufl.algorithms.transformer.CopyTransformer")(), "visit"),
+        "VariableStripper": (lambda: R("ufl.algorithms.transformer.VariableStripper")(), "visit"),
+        "IndexExpander": (lambda: R("ufl.algorithms.expand_indices.IndexExpander")(), "visit"),
+        "GradRuleset": (lambda: R("ufl.algorithms.apply_derivatives.GradRuleset")(2), "call"),
+        "ReferenceGradRuleset": (lambda: R("ufl.algorithms.apply_derivatives.ReferenceGradRuleset")(2), "call"),
+        "Expression2UnicodeHandler": (lambda: _unicode_handler(), "call"),
+    }
+
+
+def _unicode_handler():
+    m = ops.resolve("ufl.formatting.ufl2unicode")
+    return m.Expression2UnicodeHandler()
+
+
+def xop_mkreal(node, op):
+    """['mkreal', out, name]: a long-lived instance of one of UFL's own algorithm classes."""
+    _, out, name = op
+    f, how = _real_instances(node)[name]
+    inst = f()
+    node.put(out, (inst, how))
+    return None
+
+
+def xop_applyinst(node, op):
+    """['applyinst', None, inst_slot, expr_slot] -> repr of the result or '!Type'."""
+    _, _, islot, eslot = op
+    inst, how = node.get(islot)
+    e = node.get(eslot)
+    try:
+        if how == "map":
+            r = ops.resolve("ufl.corealg.map_dag.map_expr_dag")(inst, e)
+        elif how == "visit":
+            r = inst.visit(e)
+        else:
+            r = inst(e)
+        return repr(r)
+    except BaseException as ex:  # noqa: B036
+        if _is_dispatch_error(ex):
+            return "!DispatchError"
+        return "!" + type(ex).__name__
 
 
 def xop_applyreal(node, op):
